@@ -406,7 +406,7 @@ def main():
         partial = bool(a.stages)
         cov = dict(evaluations=merged["evaluations"], distinct_nontrivial=distinct, rule=P["rule"], samples=samples[:40] or ["(none)"],
                    classes=merged["classes"], stages=merged["stages"], regression_replays=nreg,
-                   exhaustive=bool(merged["exhaustive"]) and not violations, exhaustive_subspaces=merged["exhaustive"],
+                   exhaustive=bool(P.get("finite_quantifier")) and bool(merged["exhaustive"]) and not violations and not partial, exhaustive_subspaces=merged["exhaustive"],
                    distinct_count_capped=capped, excluded_known=merged["known_hits"], notes=merged["notes"], partial_run=partial)
         if P.get("extra_cov"):
             cov.update(P["extra_cov"](merged))
